@@ -10,6 +10,7 @@ import (
 	sdk "github.com/cosmos/cosmos-sdk/types"
 	ammtypes "github.com/elys-network/elys/x/amm/types"
 	commitmenttypes "github.com/elys-network/elys/x/commitment/types"
+	mctypes "github.com/elys-network/elys/x/masterchef/types"
 	ptypes "github.com/elys-network/elys/x/parameter/types"
 	sstypes "github.com/elys-network/elys/x/stablestake/types"
 
@@ -256,6 +257,9 @@ type C13 struct {
 	preAcc  map[string]math.LegacyDec
 	inDist  bool
 	allowed map[string]*big.Rat // increments the distribution step may add, per pool|denom|holder
+	claimTx      *chain.TxRecord
+	claimWallet  map[string]math.Int
+	claimPending map[string]*big.Rat
 }
 
 func NewC13() *C13          { return &C13{st: NewStats("C13"), prevP: map[string]*big.Rat{}} }
@@ -390,12 +394,62 @@ func stepClass(what string) string {
 	return what
 }
 
+func (m *C13) PreMsg(w *chain.World, ctx sdk.Context, tx *chain.TxRecord, msgIdx int, msg sdk.Msg, typeURL string) {
+	if tx == nil || msg == nil || len(tx.Msgs) != 1 {
+		return
+	}
+	if _, ok := msg.(*mctypes.MsgClaimRewards); ok {
+		m.claimTx = tx
+		m.claimWallet = balMap(w, ctx, tx.Signer.S())
+		_, m.claimPending = m.pendingAll(w, ctx)
+	}
+}
+
 func (m *C13) PostTx(w *chain.World, ctx sdk.Context, tx *chain.TxRecord, success bool) {
 	if !success || tx == nil {
 		return
 	}
 	mt := strings.TrimPrefix(tx.MsgType(), "/elys.")
 	m.step(w, ctx, "tx "+mt, []string{mt})
+	if m.claimTx != tx {
+		return
+	}
+	m.claimTx = nil
+	// a claim pays at most what was credited to the claimant for the pools it names
+	cl := tx.Msgs[0].(*mctypes.MsgClaimRewards)
+	named := map[uint64]bool{}
+	for _, id := range cl.PoolIds {
+		named[id] = true
+	}
+	due := map[string]*big.Rat{}
+	for k, p := range m.claimPending {
+		parts := strings.SplitN(k, "|", 3)
+		var pid uint64
+		fmt.Sscan(parts[0], &pid)
+		if parts[2] != tx.Signer.S() || !named[pid] || p.Sign() <= 0 {
+			continue
+		}
+		if due[parts[1]] == nil {
+			due[parts[1]] = new(big.Rat)
+		}
+		due[parts[1]].Add(due[parts[1]], p)
+	}
+	paid := diffBal(m.claimWallet, balMap(w, ctx, tx.Signer.S()))
+	m.st.Ev("claim_checked")
+	for d, amt := range paid {
+		if !amt.IsPositive() || !bankBacked(d) {
+			continue
+		}
+		lim := new(big.Rat).SetInt64(1)
+		if due[d] != nil {
+			lim.Add(lim, due[d])
+		}
+		m.st.Eval("claim/"+tx.Signer.S()+"/"+d, amt.String())
+		if new(big.Rat).SetInt(amt.BigInt()).Cmp(lim) > 0 {
+			w.Report(chain.Violation{Property: "C13", Rule: "C13.claim_pays_at_most_credited", Scope: sc("reward_denom", d), Ops: []string{mt}, Relation: "paid>credited",
+				Detail: fmt.Sprintf("height %d: claim of %s naming pools %v paid %s%s but only %s was credited and unclaimed", ctx.BlockHeight(), tx.Signer.Name, cl.PoolIds, amt, d, lim.FloatString(3))})
+		}
+	}
 }
 
 func (m *C13) AroundModule(w *chain.World, ctx sdk.Context, module, phase string, before bool) {
